@@ -388,6 +388,26 @@ func c06_3(c *core.Ctx, p *core.Prog) {
 							core.BindParam(prm, hc.Call.Args[k])
 						}
 					}
+					// helpers of the helper with one call site (`pending.response(err)` building the value sent)
+					sites := map[*ssa.Function][]*ssa.Call{}
+					core.EachInstr(h, func(j ssa.Instruction) {
+						if c2, ok := j.(*ssa.Call); ok {
+							if h2 := c2.Call.StaticCallee(); h2 != nil && core.FnPkgPath(h2) == core.CBPPath && len(h2.Blocks) > 0 {
+								sites[h2] = append(sites[h2], c2)
+							}
+						}
+					})
+					for h2, cs := range sites {
+						if len(cs) != 1 {
+							continue
+						}
+						for k, prm := range h2.Params {
+							if k < len(cs[0].Call.Args) {
+								core.BindParam(prm, cs[0].Call.Args[k])
+							}
+						}
+						core.MarkTransparent(h2)
+					}
 				}
 			})
 		}
@@ -479,6 +499,29 @@ func c06_3(c *core.Ctx, p *core.Prog) {
 	cntPath := ""
 	if cntV != nil {
 		cntPath = core.AccessPath(cntV)
+		// read through the (value) receiver of a bound helper: the path of the argument it stands for
+		var root ssa.Value
+		fname := ""
+		if f, ok := core.Strip(cntV).(*ssa.Field); ok {
+			root, fname = f.X, core.FieldName(f)
+		} else if fa := core.LoadedField(core.Strip(cntV)); fa != nil {
+			root, fname = fa.X, core.FieldName(fa)
+			// a value receiver is spilled into a local cell
+			if al, ok := root.(*ssa.Alloc); ok {
+				for _, r := range core.Referrers(al) {
+					if st, ok := r.(*ssa.Store); ok && st.Addr == ssa.Value(al) {
+						root = st.Val
+					}
+				}
+			}
+		}
+		if prm, ok := root.(*ssa.Parameter); ok {
+			if b := core.ParamBinding(prm); b != nil {
+				if bp := core.AccessPath(b); bp != "" {
+					cntPath = bp + "." + fname
+				}
+			}
+		}
 	}
 	if chPath == "" || cntPath == "" {
 		msgs = append(msgs, "origin of the channel / count sent to the waiter not recognised")
